@@ -2,7 +2,7 @@
 from __future__ import annotations
 import ast
 from typing import List, Dict, Optional
-from ..model import Model, FuncInfo, own_nodes, norm_stmt, AnalysisError, AnchorError, enclosing_stmt, ancestors
+from ..model import Model, FuncInfo, own_nodes, norm_stmt, AnalysisError, AnchorError, enclosing_stmt, ancestors, has_form
 from ..report import RuleResult
 from ..flow import function_defs, names_loaded
 from ..rules import autograd as ac
@@ -108,7 +108,7 @@ def _shifted_system(fc, Sy: RuleResult):
     src = ast.unparse(bw.node)
     if "idx_degen, isdegenerate = _check_degen(evals, degen_atol, degen_rtol)" in src and "if not isdegenerate:\n    idx_degen = None" in src.replace("        ", "    ").replace("    " * 2, "    "):
         Sy.ok(bw.fq, "the degeneracy map comes from _check_degen(evals, atol, rtol) and is dropped when nothing is degenerate")
-    elif "_check_degen(evals, degen_atol, degen_rtol)" in src and "idx_degen = None" in src:
+    elif has_form(bw.node, "_check_degen(evals, degen_atol, degen_rtol)", "idx_degen = None"):
         Sy.ok(bw.fq, "the degeneracy map comes from _check_degen(evals, atol, rtol) and is dropped when nothing is degenerate")
     else:
         Sy.bad(bw, bw.node, "the degeneracy map must be computed by _check_degen(evals, degen_atol, degen_rtol)")
